@@ -1,6 +1,7 @@
 import DuneVerif.Common.Proto
 import DuneVerif.Model.C09
 import DuneVerif.Model.C09LU
+import DuneVerif.Model.C09X
 /-! line-protocol driver for C09 (see harness/cxx_c09.cc for the op lines).
 
 Scalar types of the correspondence: `i32`/`i64` as exact `Int` with the range of the C++ type (an operation
@@ -79,6 +80,57 @@ def semInt (w : Nat) : Sem Int where
   truth := fun a => a ≠ 0
   un := fun op => some (intUn w op)
   inc := fun op => some (intInc w op)
+  zero := 0
+  classify := none
+
+-- short: computed in `int` (integer promotion), converted back to 16 bits (wraps) -----------------------------
+
+def wrapS (w : Nat) (x : Int) : Int := ofU w (toU w x)
+
+def semI16 : Sem Int where
+  parse := fun s => (s.toInt?).bind (inRange 16)
+  «show» := toString
+  bin := fun op => some fun a b => (intBin 32 op a b).map (wrapS 16)
+  shift := fun op => some fun a b => (intShift 32 op a b).map (wrapS 16)
+  cmp := intCmp
+  truth := fun a => a ≠ 0
+  un := fun op => some fun a => (intUn 32 op a).map (wrapS 16)
+  inc := fun op => some fun a => (intInc 32 op a).map (wrapS 16)
+  zero := 0
+  classify := none
+
+-- unsigned: arithmetic modulo 2^w -----------------------------------------------------------------------------
+
+def wrapU (w : Nat) (x : Int) : Int := (toU w x : Nat)
+
+def uintBin (w : Nat) : BinOp → Int → Int → Option Int
+  | .add, a, b => some (wrapU w (a + b))
+  | .sub, a, b => some (wrapU w (a - b))
+  | .mul, a, b => some (wrapU w (a * b))
+  | .div, a, b => if b = 0 then none else some (a / b)
+  | .mod, a, b => if b = 0 then none else some (a % b)
+  | .band, a, b => some (Nat.land a.toNat b.toNat : Nat)
+  | .bor, a, b => some (Nat.lor a.toNat b.toNat : Nat)
+  | .bxor, a, b => some (Nat.xor a.toNat b.toNat : Nat)
+
+def uintShift (w : Nat) : ShiftOp → Int → Int → Option Int
+  | .shl, a, b => if b < w then some (wrapU w (a * (2 : Int) ^ b.toNat)) else none
+  | .shr, a, b => if b < w then some (a / (2 : Int) ^ b.toNat) else none
+
+def semUInt (w : Nat) : Sem Int where
+  parse := fun s => (s.toInt?).bind fun x => if 0 ≤ x ∧ x < (2 : Int) ^ w then some x else none
+  «show» := toString
+  bin := fun op => some (uintBin w op)
+  shift := fun op => some (uintShift w op)
+  cmp := intCmp
+  truth := fun a => a ≠ 0
+  un := fun op => some fun a => match op with
+    | .pos => some a
+    | .neg => some (wrapU w (-a))
+    | .bnot => some ((2 : Int) ^ w - 1 - a)
+  inc := fun op => some fun a => match op with
+    | .inc => some (wrapU w (a + 1))
+    | .dec => some (wrapU w (a - 1))
   zero := 0
   classify := none
 
@@ -171,7 +223,7 @@ inductive Shape where
 
 def parseShape (s : String) : Option Shape :=
   match s.splitOn "x" with
-  | [a] => a.toNat?.bind fun S => if S ∈ [1, 2, 4, 8] then some (.flat S) else none
+  | [a] => a.toNat?.bind fun S => if S ∈ [1, 2, 3, 4, 8] then some (.flat S) else none
   | [a, b] => a.toNat?.bind fun S₁ => b.toNat?.bind fun S₂ =>
       if (S₁, S₂) ∈ [(2, 2), (4, 2), (2, 4)] then some (.nested S₁ S₂) else none
   | _ => none
@@ -198,8 +250,16 @@ def unOpOf (s : String) : Option UnOp := match s with | "pos" => some .pos | "ne
 def res (o : Option String) : String := o.getD "invalid"
 def noSuch : String := "ERR:NoSuchOp"
 
+/-- `lanes<V>() lanes(v) Scalar<V>  lanes<Mask<V>>() Scalar<Mask<V>>  lanes<Rebind<long,V>>() Scalar<Rebind<long,V>>
+    Rebind<Scalar<V>,V> == V`, computed with the translated type functions -/
+def traits (t : Ty) : String :=
+  let m := Ty.rebind (.scalar "b") t
+  let r := Ty.rebind (.scalar "i64") t
+  " ".intercalate [toString t.lanes, toString t.lanes, t.scalarOf.scalarName, toString m.lanes, m.scalarOf.scalarName,
+    toString r.lanes, r.scalarOf.scalarName, if Ty.rebind t.scalarOf t = t then "1" else "0"]
+
 /-- operations on one scalar type -/
-def execT {α : Type} (T : Sem α) (sh : Shape) (kind : String) (rest : List String) : String :=
+def execT {α : Type} (tname : String) (isMask : Bool) (T : Sem α) (sh : Shape) (kind : String) (rest : List String) : String :=
   let logicSem : BoolOp → α → α → Option Bool := fun op a b =>
     match op with | .land => some (T.truth a && T.truth b) | .lor => some (T.truth a || T.truth b)
   let cmpSem : CmpOp → α → α → Option Bool := fun op a b => some (T.cmp op a b)
@@ -209,6 +269,9 @@ def execT {α : Type} (T : Sem α) (sh : Shape) (kind : String) (rest : List Str
     let pv := parseFlat T.parse S
     let sv := showFlat (S := S) T.show
     let sm := showFlat (S := S) showB
+    -- `Simd::mask(v)`: the vector itself if it is a mask, otherwise `v != 0` (defaults.hh)
+    let maskOf : Vec α S → Option (Vec Bool S) := fun v =>
+      if isMask then some (v.map T.truth) else Simd.mask cmpSem T.zero v
     match kind, rest with
     | "bin", [form, opn, ta, tb] =>
       -- arithmetic
@@ -253,12 +316,10 @@ def execT {α : Type} (T : Sem α) (sh : Shape) (kind : String) (rest : List Str
       | "max", "vv", some a, some b => res ((Simd.stdBin (fun _ x y => some (Simd.stdMax lt x y)) StdBinOp.f_max a b).map sv)
       | "min", "vv", some a, some b => res ((Simd.stdBin (fun _ x y => some (Simd.stdMin lt x y)) StdBinOp.f_min a b).map sv)
       | "maskor", "vv", some a, some b =>
-          -- defaults.hh: mask(v1) || mask(v2), mask(v) = v != 0
-          res (((Simd.compareVS cmpSem .ne a T.zero).bind fun ma => (Simd.compareVS cmpSem .ne b T.zero).bind fun mb =>
-            Simd.logicVV (fun (_ : BoolOp) x y => some (x || y)) .lor ma mb).map sm)
+          -- defaults.hh: mask(v1) || mask(v2), mask(v) = v != 0 (the mask itself for a vector of bool)
+          res ((Simd.maskCombine maskOrOp Simd.boolSem (maskOf a) (maskOf b)).map sm)
       | "maskand", "vv", some a, some b =>
-          res (((Simd.compareVS cmpSem .ne a T.zero).bind fun ma => (Simd.compareVS cmpSem .ne b T.zero).bind fun mb =>
-            Simd.logicVV (fun (_ : BoolOp) x y => some (x && y)) .land ma mb).map sm)
+          res ((Simd.maskCombine maskAndOp Simd.boolSem (maskOf a) (maskOf b)).map sm)
       | _, _, _, _ => if opn ∈ ["max", "min", "maskor", "maskand"] then noSuch else "bad-op"
     | "asg", [form, opn, ta, tb] =>
       match assignOpOf opn with
@@ -290,7 +351,7 @@ def execT {α : Type} (T : Sem α) (sh : Shape) (kind : String) (rest : List Str
         | "predec" => match T.inc .dec with | none => noSuch | some f => res ((Simd.prefix (fun _ => f) .dec a).map fun r => sv r ++ "|" ++ sv r)
         | "postinc" => match T.inc .inc with | none => noSuch | some f => res ((Simd.postfix (fun _ => f) .inc a).map fun r => sv r.1 ++ "|" ++ sv r.2)
         | "postdec" => match T.inc .dec with | none => noSuch | some f => res ((Simd.postfix (fun _ => f) .dec a).map fun r => sv r.1 ++ "|" ++ sv r.2)
-        | "mask" => res ((Simd.compareVS cmpSem .ne a T.zero).map sm)
+        | "mask" => res ((maskOf a).map sm)
         | "isNaN" => match T.classify with | none => noSuch | some c => res ((Simd.isNaN (fun x => some (c x).1) a).map sm)
         | "isInf" => match T.classify with | none => noSuch | some c => res ((Simd.isInf (fun x => some (c x).2.1) a).map sm)
         | "isFinite" => match T.classify with | none => noSuch | some c => res ((Simd.isFinite (fun x => some (c x).2.2) a).map sm)
@@ -308,15 +369,17 @@ def execT {α : Type} (T : Sem α) (sh : Shape) (kind : String) (rest : List Str
       | some m, some a, some b => sv (scalarCond m a b)
       | _, _, _ => "bad-op"
     | "bcast", [x] => match T.parse x with | some x => sv (Simd.broadcast x) | none => "bad-op"
-    | "hmax", [ta] => match pv ta with | some a => res ((Simd.hmax lt a.toList).map T.show) | none => "bad-op"
-    | "hmin", [ta] => match pv ta with | some a => res ((Simd.hmin lt a.toList).map T.show) | none => "bad-op"
-    | "lanes", [] => toString (laneCount S 1) ++ " " ++ toString (laneCount S 1)
+    | "hmax", [ta] => match pv ta with | some a => res ((Simd.hmaxFlat lt a).map T.show) | none => "bad-op"
+    | "hmin", [ta] => match pv ta with | some a => res ((Simd.hminFlat lt a).map T.show) | none => "bad-op"
+    | "lanes", [] => traits (Ty.flat tname S)
     | _, _ => "bad-op"
   | .nested S₁ S₂ =>
     let pv := parseNested T.parse S₁ S₂
     let pf := parseFlat T.parse (S₁ * S₂)
     let sv := showNested (S₁ := S₁) (S₂ := S₂) T.show
     let sm := showNested (S₁ := S₁) (S₂ := S₂) showB
+    let maskOf : Vec (Vec α S₂) S₁ → Option (Vec (Vec Bool S₂) S₁) := fun v =>
+      if isMask then some (v.map fun e => e.map T.truth) else Simd.maskNested cmpSem T.zero v
     match kind, rest with
     | "bin", [form, opn, ta, tb] =>
       match binOpOf opn with
@@ -371,13 +434,9 @@ def execT {α : Type} (T : Sem α) (sh : Shape) (kind : String) (rest : List Str
       | "min", "vv", some a, some b =>
           res ((Simd.binVV loop_STD_BINARY_OP_vv (Simd.stdBin (fun _ x y => some (Simd.stdMin lt x y)) StdBinOp.f_min) a b).map sv)
       | "maskor", "vv", some a, some b =>
-          let mk := fun (v : Vec (Vec α S₂) S₁) => Simd.binVS loop_COMPARISON_OP_vs (Simd.compareVS cmpSem .ne) v T.zero
-          res (((mk a).bind fun ma => (mk b).bind fun mb =>
-            Simd.binVV loop_BOOLEAN_OP_vv (Simd.logicVV (fun (_ : BoolOp) x y => some (x || y)) .lor) ma mb).map sm)
+          res ((Simd.maskCombineNested maskOrOp Simd.boolSem (maskOf a) (maskOf b)).map sm)
       | "maskand", "vv", some a, some b =>
-          let mk := fun (v : Vec (Vec α S₂) S₁) => Simd.binVS loop_COMPARISON_OP_vs (Simd.compareVS cmpSem .ne) v T.zero
-          res (((mk a).bind fun ma => (mk b).bind fun mb =>
-            Simd.binVV loop_BOOLEAN_OP_vv (Simd.logicVV (fun (_ : BoolOp) x y => some (x && y)) .land) ma mb).map sm)
+          res ((Simd.maskCombineNested maskAndOp Simd.boolSem (maskOf a) (maskOf b)).map sm)
       | _, _, _, _ => if opn ∈ ["max", "min", "maskor", "maskand"] then noSuch else "bad-op"
     | "asg", [form, opn, ta, tb] =>
       match assignOpOf opn with
@@ -412,7 +471,7 @@ def execT {α : Type} (T : Sem α) (sh : Shape) (kind : String) (rest : List Str
         | "predec" => match T.inc .dec with | none => noSuch | some f => res ((pre .dec f).map fun r => sv r ++ "|" ++ sv r)
         | "postinc" => match T.inc .inc with | none => noSuch | some f => res ((pre .inc f).map fun r => sv a ++ "|" ++ sv r)
         | "postdec" => match T.inc .dec with | none => noSuch | some f => res ((pre .dec f).map fun r => sv a ++ "|" ++ sv r)
-        | "mask" => res ((Simd.binVS loop_COMPARISON_OP_vs (Simd.compareVS cmpSem .ne) a T.zero).map sm)
+        | "mask" => res ((maskOf a).map sm)
         | "isNaN" => match T.classify with
           | none => noSuch | some c => res ((Simd.un loop_isNaN (Simd.isNaN fun x => some (c x).1) a).map sm)
         | "isInf" => match T.classify with
@@ -433,22 +492,20 @@ def execT {α : Type} (T : Sem α) (sh : Shape) (kind : String) (rest : List Str
       | some m, some a, some b => sv (scalarCond m a b)
       | _, _, _ => "bad-op"
     | "bcast", [x] => match T.parse x with
-      | some x => sv (Simd.broadcast (S := S₁) (Simd.broadcast (S := S₂) x)) | none => "bad-op"
-    | "hmax", [ta] => match pv ta with | some a => res ((Simd.hmax lt (Simd.flatten a)).map T.show) | none => "bad-op"
-    | "hmin", [ta] => match pv ta with | some a => res ((Simd.hmin lt (Simd.flatten a)).map T.show) | none => "bad-op"
+      | some x => sv (Simd.broadcastNested (S := S₁) (S₂ := S₂) x) | none => "bad-op"
+    | "hmax", [ta] => match pv ta with | some a => res ((Simd.hmaxNested lt a).map T.show) | none => "bad-op"
+    | "hmin", [ta] => match pv ta with | some a => res ((Simd.hminNested lt a).map T.show) | none => "bad-op"
     | "implcast", [dir, ta] =>
       -- defaults.hh: lane(l, result) = lane(l, u) for every l
       match dir with
       | "flat" => match pv ta with
-        | some a => res (((List.range (S₁ * S₂)).mapM fun l => Simd.laneNested l a).map fun xs => "[" ++ ",".intercalate (xs.map T.show) ++ "]")
+        | some a => res ((Simd.implCastToFlat T.zero a).map (showFlat T.show))
         | none => "bad-op"
       | "nest" => match pf ta with
-        | some a =>
-          let z : Vec (Vec α S₂) S₁ := Simd.broadcast (Simd.broadcast T.zero)
-          res (((List.range (S₁ * S₂)).foldlM (fun (r : Vec (Vec α S₂) S₁) l => (Simd.lane l a).bind fun x => Simd.setLaneNested l x r) z).map sv)
+        | some a => res ((Simd.implCastToNested (S := S₁) (S₂ := S₂) T.zero a).map sv)
         | none => "bad-op"
       | _ => noSuch
-    | "lanes", [] => toString (laneCount S₁ (laneCount S₂ 1)) ++ " " ++ toString (laneCount S₁ (laneCount S₂ 1))
+    | "lanes", [] => traits (Ty.nested tname S₁ S₂)
     | _, _ => "bad-op"
 
 -- cmath functions: uninterpreted, given by the table on the op line -----------------------------------------
@@ -489,7 +546,7 @@ def execMath (canon : String → Option String) (sh : Shape) (fn ta tt : String)
         | none => "bad-op"
     | none, none, none => noSuch
 
--- dense matrices --------------------------------------------------------------------------------------------
+-- dense matrices / vectors of SIMD numbers ------------------------------------------------------------------------
 
 def arithF64 : Arith Float where
   zero := 0
@@ -503,42 +560,223 @@ def arithF64 : Arith Float where
   lt := fun a b => a < b
   beq := fun a b => a == b
 
-def parseMat (S n : Nat) (tok : String) : Option (Mat (Vec Float S) n) :=
-  (listToks tok).bind fun ts => (ts.mapM semF64.parse).bind fun xs =>
-    if xs.length = n * n * S then
-      ((chunks S (n * n) xs).mapM (mkVec S)).bind fun es => ((chunks n n es).mapM (mkVec n)).bind (mkVec n)
-    else none
+def arithF32 : Arith Float32 where
+  zero := 0
+  one := 1
+  add := (· + ·)
+  sub := (· - ·)
+  mul := (· * ·)
+  div := (· / ·)
+  neg := fun a => -a
+  abs := Float32.abs
+  lt := fun a b => a < b
+  beq := fun a b => a == b
 
-def parseVecOfVec (S n : Nat) (tok : String) : Option (Vector (Vec Float S) n) :=
-  (listToks tok).bind fun ts => (ts.mapM semF64.parse).bind fun xs =>
-    if xs.length = n * S then ((chunks S n xs).mapM (mkVec S)).bind (mkVec n) else none
+/-- one SIMD number type of the matrix cases: the `SimdLike` instance, the scalar arithmetic and the codec -/
+structure Ctx (V : Type → Type) (L : Nat) (K : Type) where
+  X : SimdLike V L
+  R : Arith K
+  sq : K → K
+  parseK : String → Option K
+  showK : K → String
+  ofLanes : List K → Option (V K)
+  toLanes : V K → List K
 
-def showLanes {S : Nat} (v : Vec Float S) : String := ",".intercalate (v.toList.map semF64.show)
-def showVecOfVec {S n : Nat} (v : Vector (Vec Float S) n) : String := "[" ++ ",".intercalate (v.toList.map showLanes) ++ "]"
-def showMat {S n : Nat} (A : Mat (Vec Float S) n) : String :=
-  "[" ++ ",".intercalate ((A.toList.map fun r => r.toList.map showLanes).flatten) ++ "]"
+def ctxLoop64 (S : Nat) : Ctx (fun α => Vec α S) S Float :=
+  { X := SimdLike.loop S, R := arithF64, sq := Float.sqrt, parseK := semF64.parse, showK := semF64.show,
+    ofLanes := mkVec S, toLanes := fun v => v.toList }
+def ctxLoop32 (S : Nat) : Ctx (fun α => Vec α S) S Float32 :=
+  { X := SimdLike.loop S, R := arithF32, sq := Float32.sqrt, parseK := semF32.parse, showK := semF32.show,
+    ofLanes := mkVec S, toLanes := fun v => v.toList }
+def ctxNested64 (S₁ S₂ : Nat) : Ctx (fun α => Vec (Vec α S₂) S₁) (S₁ * S₂) Float :=
+  { X := SimdLike.nested S₁ S₂, R := arithF64, sq := Float.sqrt, parseK := semF64.parse, showK := semF64.show,
+    ofLanes := fun xs => ((chunks S₂ S₁ xs).mapM (mkVec S₂)).bind (mkVec S₁), toLanes := fun v => Simd.flatten v }
 
-def execMat (what : String) (S n : Nat) (piv : Bool) (ta : String) (tb : Option String) : String :=
-  let X := SimdLike.loop S
-  let R := arithF64
-  match parseMat S n ta with
+section Generic
+variable {V : Type → Type} {L : Nat} {K : Type} (C : Ctx V L K)
+
+def parseEntries (count : Nat) (tok : String) : Option (List (V K)) :=
+  (listToks tok).bind fun ts => (ts.mapM C.parseK).bind fun xs =>
+    if xs.length = count * L then (chunks L count xs).mapM C.ofLanes else none
+def parseRM (r c : Nat) (tok : String) : Option (RMat (V K) r c) :=
+  (parseEntries C (r * c) tok).bind fun es => ((chunks c r es).mapM (mkVec c)).bind (mkVec r)
+def parseVG (n : Nat) (tok : String) : Option (Vector (V K) n) := (parseEntries C n tok).bind (mkVec n)
+def parseOne (tok : String) : Option (V K) := (parseEntries C 1 tok).bind fun l => l.head?
+
+def showG (v : V K) : String := ",".intercalate ((C.toLanes v).map C.showK)
+def showVG {n : Nat} (v : Vector (V K) n) : String := "[" ++ ",".intercalate (v.toList.map (showG C)) ++ "]"
+def showRM {r c : Nat} (A : RMat (V K) r c) : String :=
+  "[" ++ ",".intercalate ((A.toList.map fun row => row.toList.map (showG C)).flatten) ++ "]"
+
+def execMatG (what : String) (n : Nat) (piv : Bool) (ta : String) (tb : Option String) : String :=
+  let X := C.X
+  let R := C.R
+  match parseRM C n n ta with
   | none => "bad-op"
-  | some A =>
+  | some (A : Mat (V K) n) =>
     match what, tb with
-    | "det", none => "[" ++ showLanes (determinant X R piv A) ++ "]"
-    | "solve", some tb => match parseVecOfVec S n tb with
-      | some b => match solve X R piv A b with | some x => showVecOfVec x | none => "ERR:FMatrix"
+    | "det", none => "[" ++ showG C (determinant X R piv A) ++ "]"
+    | "solve", some tb => match parseVG C n tb with
+      | some b => match solve X R piv A b with | some x => showVG C x | none => "ERR:FMatrix"
       | none => "bad-op"
-    | "inv", none => match invert X R piv A with | some B => showMat B | none => "ERR:FMatrix"
-    | "mv", some tb => match parseVecOfVec S n tb with
-      | some b => showVecOfVec (mv X R A b)
+    | "inv", none => match invert X R piv A with | some B => showRM C B | none => "ERR:FMatrix"
+    | "mv", some tb => match parseVG C n tb with
+      | some b => showVG C (mv X R A b)
       | none => "bad-op"
-    | "mm", some tb => match parseMat S n tb with
-      | some B => showMat (rightmultiply X R A B)
+    | "mm", some tb => match parseRM C n n tb with
+      | some (B : Mat (V K) n) => showRM C (rightmultiply X R A B)
       | none => "bad-op"
-    | "fnorm2", none => "[" ++ showLanes (frobeniusNorm2 X R A) ++ "]"
-    | "infnorm", none => "[" ++ showLanes (infinityNorm X R A) ++ "]"
+    | "lmm", some tb => match parseRM C n n tb with
+      | some (B : Mat (V K) n) => showRM C (leftmultiply X R A B)
+      | none => "bad-op"
+    | "fnorm2", none => "[" ++ showG C (frobeniusNorm2 X R A) ++ "]"
+    | "infnorm", none => "[" ++ showG C (infinityNorm X R A) ++ "]"
+    | _, _ => noSuch
+
+def execRectG (what : String) (r c : Nat) (rest : List String) : String :=
+  let X := C.X
+  let R := C.R
+  match rest with
+  | [ta] =>
+    match parseRM C r c ta with
+    | none => "bad-op"
+    | some A =>
+      match what with
+      | "fnorm2" => "[" ++ showG C (frobeniusNorm2R X R A) ++ "]"
+      | "fnorm" => "[" ++ showG C (frobeniusNormR X R C.sq A) ++ "]"
+      | "infnorm" => "[" ++ showG C (infinityNormR X R A) ++ "]"
+      | "infnormr" => "[" ++ showG C (infinityNormR X R A) ++ "]"
+      | _ => noSuch
+  | [ta, tx, ty, tal] =>
+    match parseRM C r c ta, parseOne C tal with
+    | some A, some alpha =>
+      if what ∈ ["mv", "umv", "mmv", "usmv"] then
+        match parseVG C c tx, parseVG C r ty with
+        | some x, some y =>
+          match what with
+          | "mv" => showVG C (mvR X R A x y)
+          | "umv" => showVG C (umvR X R A x y)
+          | "mmv" => showVG C (mmvR X R A x y)
+          | _ => showVG C (usmvR X R alpha A x y)
+        | _, _ => "bad-op"
+      else if what ∈ ["mtv", "umtv", "mmtv", "usmtv"] then
+        match parseVG C r tx, parseVG C c ty with
+        | some x, some y =>
+          match what with
+          | "mtv" => showVG C (mtvR X R A x y)
+          | "umtv" => showVG C (umtvR X R A x y)
+          | "mmtv" => showVG C (mmtvR X R A x y)
+          | _ => showVG C (usmtvR X R alpha A x y)
+        | _, _ => "bad-op"
+      else noSuch
     | _, _ => "bad-op"
+  | _ => "bad-op"
+
+def execVecG (what : String) (n : Nat) (rest : List String) : String :=
+  let X := C.X
+  let R := C.R
+  match rest with
+  | [tv] =>
+    match parseVG C n tv with
+    | none => "bad-op"
+    | some v =>
+      match what with
+      | "one" => "[" ++ showG C (oneNorm X R v) ++ "]"
+      | "oner" => "[" ++ showG C (oneNorm X R v) ++ "]"
+      | "two2" => "[" ++ showG C (twoNorm2 X R v) ++ "]"
+      | "two" => "[" ++ showG C (twoNorm X R C.sq v) ++ "]"
+      | "inf" => "[" ++ showG C (vecInfinityNorm X R v) ++ "]"
+      | "infr" => "[" ++ showG C (vecInfinityNorm X R v) ++ "]"
+      | _ => noSuch
+  | [tv, tw] =>
+    match what, parseVG C n tv, parseVG C n tw with
+    | "dot", some v, some w => "[" ++ showG C (dotT X R v w) ++ "]"
+    | "dot", _, _ => "bad-op"
+    | _, _, _ => noSuch
+  | [tv, tw, tal] =>
+    match what, parseVG C n tv, parseVG C n tw, parseOne C tal with
+    | "axpy", some v, some w, some alpha => showVG C (axpy X R alpha v w)
+    | "axpy", _, _, _ => "bad-op"
+    | _, _, _, _ => noSuch
+  | _ => "bad-op"
+
+end Generic
+
+/-- the (shape, size) combinations the harness instantiates -/
+def matSizes (shape : String) : List Nat :=
+  match shape with
+  | "1" => [1, 2, 3, 4, 5] | "2" => [1, 2, 3, 4, 5, 6] | "3" => [3, 4, 5] | "4" => [1, 2, 3, 4, 5, 6] | "8" => [2, 3, 5, 6]
+  | "2x2" => [2, 3, 4, 5] | "f4" => [1, 2, 3, 4, 5] | _ => []
+def rectSizes : List (Nat × Nat) := [(2, 3), (3, 2), (1, 4), (3, 3)]
+def rectShapes : List String := ["2", "4", "2x2", "f4"]
+def fvecSizes : List Nat := [1, 3, 4]
+
+/-- run `k` with the context of a matrix shape -/
+def withShape (shape : String) (k : {V : Type → Type} → {L : Nat} → {K : Type} → Ctx V L K → String) : String :=
+  match shape with
+  | "1" => k (ctxLoop64 1) | "2" => k (ctxLoop64 2) | "3" => k (ctxLoop64 3) | "4" => k (ctxLoop64 4) | "8" => k (ctxLoop64 8)
+  | "2x2" => k (ctxNested64 2 2)
+  | "f4" => k (ctxLoop32 4)
+  | _ => "bad-op"
+
+-- the minimal SIMD type that inherits the defaults of defaults.hh ------------------------------------------------
+
+def execMini {α : Type} (isMask : Bool) (T : Sem α) (S : Nat) (what : String) (rest : List String) : String :=
+  let pv := parseFlat T.parse S
+  let sv := showFlat (S := S) T.show
+  let sm := showFlat (S := S) showB
+  let cmpSem : CmpOp → α → α → Option Bool := fun op a b => some (T.cmp op a b)
+  let lt : α → α → Bool := T.cmp .lt
+  let maskOf : Vec α S → Option (Vec Bool S) := fun v =>
+    if isMask then some (v.map T.truth) else Simd.mask cmpSem T.zero v
+  let cast : Vec α S → Option (Vec α S) := fun u => (Simd.implCastLanes (laneCount S 1) T.zero (Simd.lane · u)).bind Simd.ofLanesFlat
+  match what, rest with
+  | "mask", [ta] => match pv ta with | some a => res ((maskOf a).map sm) | none => "bad-op"
+  | "maskor", [ta, tb] => match pv ta, pv tb with
+    | some a, some b => res ((Simd.maskCombine maskOrOp Simd.boolSem (maskOf a) (maskOf b)).map sm) | _, _ => "bad-op"
+  | "maskand", [ta, tb] => match pv ta, pv tb with
+    | some a, some b => res ((Simd.maskCombine maskAndOp Simd.boolSem (maskOf a) (maskOf b)).map sm) | _, _ => "bad-op"
+  | "hmax", [ta] => match pv ta with | some a => res ((Simd.hmaxFlat lt a).map T.show) | none => "bad-op"
+  | "hmin", [ta] => match pv ta with | some a => res ((Simd.hminFlat lt a).map T.show) | none => "bad-op"
+  | "bcast", [x] => match T.parse x with | some x => sv (Simd.broadcast x) | none => "bad-op"
+  | "implcast", [ta] => match pv ta with
+    | some a => res ((cast a).bind fun lv => (cast lv).map fun back => sv lv ++ " " ++ sv back)
+    | none => "bad-op"
+  | _, _ => noSuch
+
+-- complex lanes ---------------------------------------------------------------------------------------------------
+
+def pairs {α : Type} : List α → Option (List (α × α))
+  | [] => some []
+  | x :: y :: rest => (pairs rest).map fun ps => (x, y) :: ps
+  | _ => none
+
+def execCplx (S : Nat) (what : String) (rest : List String) : String :=
+  let pc : String → Option (Vec (Float × Float) S) := fun tok =>
+    (listToks tok).bind fun ts => (ts.mapM semF64.parse).bind fun xs => (pairs xs).bind (mkVec S)
+  let showC := fun (v : Vec (Float × Float) S) =>
+    "[" ++ ",".intercalate (v.toList.map fun z => semF64.show z.1 ++ "," ++ semF64.show z.2) ++ "]"
+  let sf := showFlat (S := S) semF64.show
+  let sm := showFlat (S := S) showB
+  let ceq : Float × Float → Float × Float → Bool := fun x y => x.1 == y.1 && x.2 == y.2
+  match what, rest with
+  | "real", [ta] => match pc ta with
+    | some a => res ((Simd.stdUn2 (fun (_ : StdUnOp) (z : Float × Float) => some z.1) StdUnOp.f_real a).map sf) | none => "bad-op"
+  | "imag", [ta] => match pc ta with
+    | some a => res ((Simd.stdUn2 (fun (_ : StdUnOp) (z : Float × Float) => some z.2) StdUnOp.f_imag a).map sf) | none => "bad-op"
+  | "neg", [ta] => match pc ta with
+    | some a => res ((Simd.unary (fun (_ : UnOp) (z : Float × Float) => some (-z.1, -z.2)) .neg a).map showC) | none => "bad-op"
+  | "add", [ta, tb] => match pc ta, pc tb with
+    | some a, some b => res ((Simd.binaryVV (fun (_ : BinOp) (x y : Float × Float) => some (x.1 + y.1, x.2 + y.2)) .add a b).map showC)
+    | _, _ => "bad-op"
+  | "sub", [ta, tb] => match pc ta, pc tb with
+    | some a, some b => res ((Simd.binaryVV (fun (_ : BinOp) (x y : Float × Float) => some (x.1 - y.1, x.2 - y.2)) .sub a b).map showC)
+    | _, _ => "bad-op"
+  | "eq", [ta, tb] => match pc ta, pc tb with
+    | some a, some b => res ((Simd.compareVV (fun (_ : CmpOp) x y => some (ceq x y)) .eq a b).map sm) | _, _ => "bad-op"
+  | "ne", [ta, tb] => match pc ta, pc tb with
+    | some a, some b => res ((Simd.compareVV (fun (_ : CmpOp) x y => some (!ceq x y)) .ne a b).map sm) | _, _ => "bad-op"
+  | _, _ => noSuch
 
 def redKindOf (s : String) : Option RedKind :=
   match s with
@@ -547,15 +785,61 @@ def redKindOf (s : String) : Option RedKind :=
 
 def handle (line : String) : String :=
   match tokens line with
-  | "mat" :: what :: s :: n :: piv :: ta :: rest =>
-    match s.toNat?, n.toNat? with
-    | some S, some n =>
-      if S ∈ [1, 2, 4, 8] ∧ 1 ≤ n ∧ n ≤ 6 ∧ (piv = "0" ∨ piv = "1") then
+  | "mat" :: what :: shape :: n :: piv :: ta :: rest =>
+    match n.toNat? with
+    | some n =>
+      if n ∈ matSizes shape ∧ (piv = "0" ∨ piv = "1") then
         match rest with
-        | [] => execMat what S n (piv == "1") ta none
-        | [tb] => execMat what S n (piv == "1") ta (some tb)
+        | [] => withShape shape fun C => execMatG C what n (piv == "1") ta none
+        | [tb] => withShape shape fun C => execMatG C what n (piv == "1") ta (some tb)
         | _ => "bad-op"
       else "bad-op"
+    | none => "bad-op"
+  | "rect" :: what :: shape :: r :: c :: rest =>
+    match r.toNat?, c.toNat? with
+    | some r, some c =>
+      if (r, c) ∈ rectSizes ∧ shape ∈ rectShapes then withShape shape fun C => execRectG C what r c rest else "bad-op"
+    | _, _ => "bad-op"
+  | "vec" :: what :: shape :: n :: rest =>
+    match n.toNat? with
+    | some n => if n ∈ fvecSizes ∧ shape ∈ rectShapes then withShape shape fun C => execVecG C what n rest else "bad-op"
+    | none => "bad-op"
+  | "mini" :: what :: t :: sz :: rest =>
+    match redKindOf what, t, sz, rest with
+    | some k, "b", "3", [tm] => match parseFlat semBool.parse 3 tm with
+      | some m => res ((Simd.reduceDefault k m).map showB) | none => "bad-op"
+    | some k, "b", "4", [tm] => match parseFlat semBool.parse 4 tm with
+      | some m => res ((Simd.reduceDefault k m).map showB) | none => "bad-op"
+    | some _, _, _, _ => if (t, sz) ∈ [("i32", "3"), ("f64", "4")] then noSuch else "bad-op"
+    | none, "b", "3", _ => execMini true semBool 3 what rest
+    | none, "b", "4", _ => execMini true semBool 4 what rest
+    | none, "i32", "3", _ => execMini false (semInt 32) 3 what rest
+    | none, "f64", "4", _ => execMini false semF64 4 what rest
+    | none, _, _, _ => "bad-op"
+  | "cplx" :: what :: sz :: rest =>
+    match sz with
+    | "2" => execCplx 2 what rest
+    | "4" => execCplx 4 what rest
+    | _ => "bad-op"
+  | ["realign", ta, tb] =>
+    match parseFlat semF64.parse 4 ta, parseFlat semF64.parse 4 tb with
+    | some a, some b =>
+      let sv := showFlat (S := 4) semF64.show
+      res ((Simd.binaryVV (fun (_ : BinOp) (x y : Float) => some (x + y)) .add a b).bind fun sum =>
+        (Simd.compareVV (fun (_ : CmpOp) (x y : Float) => some (x < y)) .lt a b).bind fun m =>
+          (Simd.cond m a b).map fun sel => sv a ++ " " ++ sv sum ++ " " ++ sv sel)
+    | _, _ => "bad-op"
+  | ["shiftmix", opn, form, ta, tb] =>
+    match shiftOpOf opn, parseFlat (semInt 64).parse 4 ta with
+    | some op, some a =>
+      let sem : ShiftOp → Int → Int → Option Int := fun o => intShift 64 o
+      let sv := showFlat (S := 4) (toString : Int → String)
+      match form with
+      | "vv" => match parseFlat (semInt 32).parse 4 tb with
+        | some b => res ((Simd.shiftVV sem op a b).map sv) | none => "bad-op"
+      | "vs" => match (semInt 32).parse tb with
+        | some s => res ((Simd.shiftVS sem op a s).map sv) | none => "bad-op"
+      | _ => "bad-op"
     | _, _ => "bad-op"
   | ["reds", what, m] =>
     match redKindOf what, semBool.parse m with
@@ -581,7 +865,7 @@ def handle (line : String) : String :=
       match t with
       | "f64" => execMath (fun s => (semF64.parse s).map semF64.show) sh fn ta tt
       | "f32" => match sh with
-        | .flat _ => execMath (fun s => (semF32.parse s).map semF32.show) sh fn ta tt
+        | .flat S => if S = 3 then "bad-op" else execMath (fun s => (semF32.parse s).map semF32.show) sh fn ta tt
         | _ => "bad-op"
       | _ => noSuch
   | kind :: t :: shp :: rest =>
@@ -589,12 +873,15 @@ def handle (line : String) : String :=
     | none => "bad-op"
     | some sh =>
       if kind == "red" then noSuch else
+      let flatIn : List Nat → Bool := fun l => match sh with | .flat S => decide (S ∈ l) | _ => false
       match t with
-      | "f64" => execT semF64 sh kind rest
-      | "f32" => if nested? sh then "bad-op" else execT semF32 sh kind rest
-      | "i32" => execT (semInt 32) sh kind rest
-      | "i64" => if nested? sh then "bad-op" else execT (semInt 64) sh kind rest
-      | "b" => execT semBool sh kind rest
+      | "f64" => execT "f64" false semF64 sh kind rest
+      | "f32" => if flatIn [1, 2, 4, 8] then execT "f32" false semF32 sh kind rest else "bad-op"
+      | "i32" => execT "i32" false (semInt 32) sh kind rest
+      | "i64" => if flatIn [1, 2, 4, 8] then execT "i64" false (semInt 64) sh kind rest else "bad-op"
+      | "b" => execT "b" true semBool sh kind rest
+      | "u32" => if flatIn [2, 4, 8] then execT "u32" false (semUInt 32) sh kind rest else "bad-op"
+      | "i16" => if flatIn [2, 4] then execT "i16" false semI16 sh kind rest else "bad-op"
       | _ => "bad-op"
   | _ => "bad-op"
 
